@@ -307,6 +307,22 @@ func checkC03(c *Check, p *Program) {
 		c.Decide(match, "C03.S3", key+" increment behind sequence match", pos, "dominated by res.SeqNumber == conn.seqNumber", "the sequence counter is advanced without the acknowledgement's sequence number matching")
 		c.Decide(open, "C03.S3", key+" increment behind open channel", pos, "dominated by the comma-ok of the receive", "the counter is advanced although the ack channel may be closed")
 		c.Decide(senders[st.Parent()], "C03.S3", key+" increment in the sender", pos, "in the function that holds the lock for the exchange", "the counter is advanced outside the sending function")
+		// every acknowledgement that matches consumes the number, whatever its status: from the edge that
+		// establishes the sequence match, every path to an exit of the function passes the increment once
+		fnS := st.Parent()
+		nEdges := 0
+		for _, b := range fnS.Blocks {
+			for _, sc := range b.Succs {
+				f, has := edgeFact(b, sc)
+				if !has || !cmpIsFieldEq(f, seqRes, a.seqNumber) {
+					continue
+				}
+				nEdges++
+				min, max := pathCount(sc, func(in ssa.Instruction) bool { return in == ssa.Instruction(st) }, nil)
+				c.Decide(min == 1 && max == 1, "C03.S3", key+" every matching acknowledgement consumes the number", p.InstrPos(ifOf(b)), "every path from the sequence-match edge to an exit passes the increment exactly once", fmt.Sprintf("paths from the sequence-match edge pass the increment %d..%d times: an acknowledgement with an error status (or another outcome) leaves the counter where it was, and the next request reuses a number the gateway has already consumed", min, max))
+			}
+		}
+		c.Decide(nEdges >= 1, "C03.S3", key+" sequence-match edge found", pos, fmt.Sprintf("%d edge(s)", nEdges), "no branch edge establishes res.SeqNumber == conn.seqNumber in the sender")
 	}
 	c.Decide(nZero == 1 && nInc == 1, "C03.S3", "one reset, one increment", "", "exactly one `= 0` and one `+ 1`", fmt.Sprintf("%d resets and %d increments", nZero, nInc))
 	esc, where := p.fieldAddrEscapes(a.seqNumber)
